@@ -153,11 +153,16 @@ def reference_model(pm: ProgramModel, mb: ModelBuilder) -> AObj:
     d, e, g = F("D"), F("E"), F("G")
     h, i = F("H"), F("I")
     multi = F("Multi", card=(0, -1))
+    uni = F("Crème brûlée")                 # non-ASCII, quoted identifier
+    uni2 = F("Größe-µ")
     mb.relation(root, [pay], 1, 1)
     mb.relation(root, [cat], 1, 1)
     mb.relation(root, [srch], 0, 1)
     mb.relation(root, [qty], 0, 1)
     mb.relation(root, [multi], 0, 1)
+    mb.relation(root, [uni], 0, 1)
+    mb.relation(uni, [uni2], 1, 1)
+    uni._f["attributes"].append(mb.attribute("étiquette", "süß & señor", uni))
     mb.relation(pay, [card_f, cash, coin], 1, 3)         # or
     mb.relation(cat, [a, b, c], 1, 1)                    # alternative
     mb.relation(cat, [lbl], 1, 1)
@@ -173,6 +178,10 @@ def reference_model(pm: ProgramModel, mb: ModelBuilder) -> AObj:
                       ("items", [1, 2, "x"]), ("nested", {"k": 1, "z": "w"}), ("marker", None), ("neg", -4)):
         pay._f["attributes"].append(mb.attribute(name, val, pay))
     card_f._f["attributes"].append(mb.attribute("fee", 2, card_f))
+    # the same attribute (name and value) on several features: each feature has its own
+    cash._f["attributes"].append(mb.attribute("fee", 2, cash))
+    cash._f["attributes"].append(mb.attribute("deprecated", None, cash))
+    coin._f["attributes"].append(mb.attribute("deprecated", None, coin))
     n, o = mb.node, mb.op
     cs = [
         n(o("NOT"), n("Coin")),
@@ -196,6 +205,8 @@ def reference_model(pm: ProgramModel, mb: ModelBuilder) -> AObj:
         n(o("GREATER"), n(o("FLOOR"), n("Price")), n(1)),
         n(o("LOWER"), n(o("CEIL"), n("Price")), n(9)),
         n(o("EQUALS"), n("Label"), n("'abc def'")),
+        n(o("IMPLIES"), n("Crème brûlée"), n("Größe-µ")),
+        n(o("EQUALS"), n("Label"), n("'naïve Ωmega'")),
     ]
     return mb.model(root, [mb.constraint(f"Constraint {k}", x) for k, x in enumerate(cs)])
 
